@@ -1,80 +1,16 @@
-"""Per-property configuration for ./check."""
+"""Registry: every props_cNN.py in this directory defines PROP = {...} (see BUILDING.md)."""
+import glob
+import importlib
 import os
+import sys
 
-TRUSTED_BASE = [
-    "Lean 4.33.0 kernel (thorough tier: re-checked by leanchecker)",
-    "axioms allowed in obligations: propext, Classical.choice, Quot.sound (audited by #print axioms per theorem); no native_decide, no sorry",
-    "harness/ (Rust): maps each op line / stream to the named tyme4rs API call on /repo's working tree",
-    "Lean compiler for the driver `tymed` (correspondence only, not proofs)",
-    "hand-written model in lean/Tyme/Model (tied to the code by the correspondence run, not verified against the Rust text)",
-]
-ASSUMPTIONS = [
-    "isize/usize modelled as unbounded Int/Nat; refusals (Err or panic) canonicalised to `refused`",
-    "f64 day-number arithmetic of jd.rs modelled in exact integers (validated exhaustively over all 3,652,061 days)",
-]
+sys.path.insert(0, os.path.dirname(os.path.abspath(__file__)))
+from props_common import *  # noqa
 
-
-def rand_date(rng, lo=1, hi=9999):
-    y = rng.choice([rng.randint(lo, hi), rng.randint(lo, hi), 1582, rng.choice([1, 2, 4, 100, 400, 1500, 1581, 1583, 1600, 1700, 1900, 2000, 2024, 9998, 9999])])
-    y = min(max(y, lo), hi)
-    m = rng.randint(1, 12)
-    if y == 1582 and rng.random() < 0.5:
-        m = 10
-    ml = [31, 28, 31, 30, 31, 30, 31, 31, 30, 31, 30, 31][m - 1]
-    d = rng.choice([1, ml, rng.randint(1, ml), rng.randint(1, ml), min(ml, 28), 29 if m == 2 else 15])
-    if y == 1582 and m == 10 and 4 < d < 15:
-        d = rng.choice([4, 15])
-    return y, m, d
-
-
-def c01_ops(rng, tier):
-    n = 4000 if tier == "quick" else 60000
-    L = []
-    big = [0, 1, -1, 7, -7, 28, 29, 30, 31, 59, 60, 365, 366, -365, -366, 355, 1461, 36524, 36525, 146097, -146097, 1000000, -1000000, 3652060, -3652060, 3652061]
-    for _ in range(n):
-        k = rng.random()
-        y, m, d = rand_date(rng)
-        if k < 0.35:
-            nn = rng.choice([rng.choice(big), rng.randint(-400, 400), rng.randint(-4000000, 4000000)])
-            L.append("solar.next %d %d %d %d" % (y, m, d, nn))
-        elif k < 0.55:
-            y2, m2, d2 = rand_date(rng)
-            if rng.random() < 0.4:
-                y2 = y
-                if rng.random() < 0.5:
-                    m2 = m
-            op = rng.choice(["solar.sub", "solar.before", "solar.after"])
-            L.append("%s %d %d %d %d %d %d" % (op, y, m, d, y2, m2, d2))
-        elif k < 0.65:
-            L.append("solar.new %d %d %d" % (rng.randint(-3, 10002), rng.randint(-1, 14), rng.randint(-1, 33)))
-        elif k < 0.75:
-            L.append("jd.day %d" % rng.choice([rng.randint(1721424 - 5, 1721424 + 5), rng.randint(5373484 - 5, 5373484 + 5),
-                                               rng.randint(2299155, 2299166), rng.randint(1721424, 5373484), rng.randint(-10, 6000000)]))
-        elif k < 0.85:
-            L.append("solar.idx %d %d %d" % (y, m, d))
-        elif k < 0.92:
-            L.append("solar.week %d %d %d" % (y, m, d))
-        else:
-            L.append(rng.choice(["month.len %d %d" % (rng.randint(0, 10000), rng.randint(0, 13)), "year.len %d" % rng.randint(-1, 10001)]))
-    return L
-
-
-PROPS = {
-    "C01": {
-        "thm_module": "Tyme.Thm.C01",
-        "thm_file": "Tyme/Thm/C01.lean",
-        "lean_targets": ["Tyme.Thm.C01"],
-        "audit_files": ["Tyme/Lemmas/Jd.lean", "Tyme/Model/Jd.lean", "Tyme/Spec/Civil.lean"],
-        "streams": [
-            {"name": "c01.grid"},   # acceptance of every (y in -1..10000, m in 0..13, d in 0..32)
-            {"name": "c01.days"},   # every accepted day: jdn, weekday, day-of-year, back conversion
-            {"name": "c01.lens"},   # year length, leap flag, 12 month lengths for every year
-        ],
-        "ops": c01_ops,
-        "exhaustive": True,
-        "rule": "streams: c01.grid = all 4,620,924 (year -1..10000, month 0..13, day 0..32) triples (acceptance bitmask per month), "
-                "c01.days = every accepted date with day number, weekday, day-of-year and the date its day number maps back to, "
-                "c01.lens = all year/month lengths; each compared byte-for-byte model-vs-implementation (K) and spec-vs-implementation (S). "
-                "ops: seeded random + boundary next/subtract/before/after/jd.day/new requests. distinct_nontrivial counts distinct streams + distinct op lines.",
-    },
-}
+PROPS = {}
+for _p in sorted(glob.glob(os.path.join(os.path.dirname(os.path.abspath(__file__)), "props_c*.py"))):
+    _name = os.path.basename(_p)[:-3]
+    if _name == "props_common":
+        continue
+    _m = importlib.import_module(_name)
+    PROPS[_m.PROP["id"]] = _m.PROP
